@@ -52,6 +52,31 @@ type G struct {
 	// measured scheduler-induced lateness).
 	ParkedAt time.Time
 	Steps    int
+	// locks held (R12, lockset discipline for maps)
+	heldW map[any]struct{}
+	heldR map[any]int
+}
+
+func (g *G) addW(m any) {
+	if g.heldW == nil {
+		g.heldW = map[any]struct{}{}
+	}
+	g.heldW[m] = struct{}{}
+}
+
+func (g *G) addR(m any) {
+	if g.heldR == nil {
+		g.heldR = map[any]int{}
+	}
+	g.heldR[m]++
+}
+
+func (g *G) delR(m any) {
+	if g.heldR[m] > 1 {
+		g.heldR[m]--
+	} else {
+		delete(g.heldR, m)
+	}
 }
 
 // Run is the state of one simulation run.
@@ -73,6 +98,122 @@ type Run struct {
 	OnPark func(g *G)
 	// OnPanic receives panics of controlled goroutines (nil: re-panic).
 	OnPanic func(name string, v any, stack []byte)
+	// OnRace receives the first violation of the lockset discipline per map object.
+	epoch  uint64
+	OnRace func(msg string)
+	maps   map[uintptr]*mapState
+	// MapChecks counts map accesses seen (evidence).
+	MapChecks int64
+}
+
+// mapState is the Eraser state of one map object: exclusive to the first
+// goroutine that touched it (initialisation), then shared; once shared, the
+// candidate set is the intersection of the locks held at every access (for a
+// write: held exclusively); an empty set after a write in the shared phase is
+// a map that two goroutines can read and write at once.
+type mapState struct {
+	first    *G
+	shared   bool
+	modified bool
+	cand     map[any]struct{}
+	lastPt   string
+	lastG    string
+	lastW    bool
+	reported bool
+}
+
+// ObjAccess is called right before a statement that uses an object which is
+// documented as unsafe for concurrent use (rewriter rule R14); every use counts
+// as a write.
+func ObjAccess(point string, obj any) {
+	v := reflect.ValueOf(obj)
+	switch v.Kind() {
+	case reflect.Ptr, reflect.UnsafePointer:
+		if v.IsNil() {
+			return
+		}
+		access(point, v.Pointer(), true, "an object that is not safe for concurrent use ("+v.Type().String()+")")
+	}
+}
+
+// MapAccess is called right before a statement that reads or writes a map held in a struct field.
+func MapAccess(point string, m any, write bool) {
+	v := reflect.ValueOf(m)
+	if v.Kind() != reflect.Map || v.IsNil() {
+		return
+	}
+	access(point, v.Pointer(), write, "a map held in a struct field")
+}
+
+func access(point string, ptr uintptr, write bool, what string) {
+	r := current()
+	if r == nil {
+		return
+	}
+	g := r.self()
+	if g == nil || g.abort {
+		return
+	}
+	r.mu.Lock()
+	defer r.mu.Unlock()
+	r.MapChecks++
+	if r.maps == nil {
+		r.maps = map[uintptr]*mapState{}
+	}
+	st := r.maps[ptr]
+	if st == nil {
+		st = &mapState{first: g}
+		r.maps[ptr] = st
+	}
+	cur := map[any]struct{}{}
+	for k := range g.heldW {
+		cur[k] = struct{}{}
+	}
+	if !write {
+		for k := range g.heldR {
+			cur[k] = struct{}{}
+		}
+	}
+	prevPt, prevG, prevW := st.lastPt, st.lastG, st.lastW
+	if !st.shared {
+		if g == st.first {
+			st.lastPt, st.lastG, st.lastW = point, g.Name, write
+			return
+		}
+		st.shared = true
+		st.cand = cur
+	} else {
+		for k := range st.cand {
+			if _, ok := cur[k]; !ok {
+				delete(st.cand, k)
+			}
+		}
+	}
+	if write {
+		st.modified = true
+	}
+	if g.Name != st.lastG || write || !st.lastW {
+		st.lastPt, st.lastG, st.lastW = point, g.Name, write
+	}
+	if st.modified && len(st.cand) == 0 && !st.reported {
+		st.reported = true
+		if r.OnRace != nil {
+			kind := map[bool]string{true: "writes", false: "reads"}
+			kind[true] = map[bool]string{true: "writes", false: "uses"}[what == "a map held in a struct field"]
+			msg := what + " is used by several goroutines without a common lock: " + g.Name + " " + kind[write] + " it at " + point +
+				" holding " + strconv.Itoa(len(cur)) + " lock(s) that cover it; an earlier access was by " + prevG + " (" + kind[prevW] + ", " + prevPt +
+				")"
+			if what == "a map held in a struct field" {
+				msg += "; Go aborts the process when a map is read and written at once"
+			} else {
+				msg += "; concurrent use corrupts its state (repeated or torn output)"
+			}
+			f := r.OnRace
+			r.mu.Unlock()
+			f(msg)
+			r.mu.Lock()
+		}
+	}
 }
 
 var (
@@ -81,8 +222,11 @@ var (
 )
 
 // Begin starts a run. Must be called inside the bubble by the scheduler.
+var epochCtr atomic.Uint64
+
 func Begin() *Run {
 	r := &Run{
+		epoch:   epochCtr.Add(1),
 		gs:      map[int64]*G{},
 		byName:  map[string]*G{},
 		Arrival: make(chan struct{}, 1),
@@ -273,6 +417,43 @@ func (o *Once) Do(f func()) {
 	}
 }
 
+var asyncTimers atomic.Bool
+
+// SetAsyncTimers chooses the timer-channel semantics of the coming run: false =
+// Go >= 1.23 (no stale tick after Stop/Reset), true = the buffered channel of
+// earlier releases, where a tick that was not received survives Stop and Reset.
+func SetAsyncTimers(on bool) { asyncTimers.Store(on) }
+
+// Timer replaces time.Timer (rewriter rule R13).
+type Timer struct {
+	C     <-chan time.Time
+	inner *time.Timer
+}
+
+// NewTimer replaces time.NewTimer.
+func NewTimer(d time.Duration) *Timer {
+	if !asyncTimers.Load() || current() == nil {
+		t := time.NewTimer(d)
+		return &Timer{C: t.C, inner: t}
+	}
+	c := make(chan time.Time, 1)
+	t := &Timer{C: c}
+	t.inner = time.AfterFunc(d, func() {
+		select {
+		case c <- time.Now():
+		default:
+		}
+	})
+	return t
+}
+
+// Stop is time.Timer.Stop; with the old semantics it reports false for a timer
+// that has fired, whether or not its tick was received, and leaves the tick in C.
+func (t *Timer) Stop() bool { return t.inner.Stop() }
+
+// Reset is time.Timer.Reset (a pending old-style tick stays in C).
+func (t *Timer) Reset(d time.Duration) bool { return t.inner.Reset(d) }
+
 var denseOn atomic.Bool
 
 // SetDense switches the dense scheduling points (rewriter rule R9) on or off for the coming run.
@@ -328,6 +509,12 @@ func (r *Run) Runnable() []*G {
 		if g.state != gParked {
 			continue
 		}
+		if g.need != nil {
+			g.need.sync(r)
+		}
+		if g.needRW != nil {
+			g.needRW.sync(r)
+		}
 		if g.need != nil && g.need.held {
 			continue
 		}
@@ -357,6 +544,12 @@ func (r *Run) All() []string {
 			continue
 		case gParked:
 			s := g.Name + " parked@" + g.Point
+			if g.need != nil {
+				g.need.sync(r)
+			}
+			if g.needRW != nil {
+				g.needRW.sync(r)
+			}
 			if g.need != nil && g.need.held {
 				s += " (mutex held)"
 			}
@@ -422,8 +615,25 @@ func (r *Run) Parked() []*G {
 
 // Mutex is a cooperative replacement for sync.Mutex.
 type Mutex struct {
-	held bool
-	real sync.Mutex // used when no run is active
+	held  bool
+	ep    uint64 // the run in which the state above was written
+	owner *G
+	real  sync.Mutex // used when no run is active
+}
+
+// sync forgets state written in an earlier run: a cooperative mutex in a
+// process-wide object (a package-level variable of a rewritten dependency, say)
+// may have been left held by a goroutine that was torn down at the end of a run.
+func (m *Mutex) sync(r *Run) {
+	if m.ep != r.epoch {
+		m.held, m.owner, m.ep = false, nil, r.epoch
+	}
+}
+
+func (m *RWMutex) sync(r *Run) {
+	if m.ep != r.epoch {
+		m.w, m.r, m.wOwner, m.ep = false, 0, nil, r.epoch
+	}
 }
 
 func (m *Mutex) Lock() {
@@ -432,6 +642,7 @@ func (m *Mutex) Lock() {
 		m.real.Lock()
 		return
 	}
+	m.sync(r)
 	g := r.self()
 	if g == nil {
 		// uncontrolled goroutine (the scheduler itself must never get here
@@ -455,6 +666,8 @@ func (m *Mutex) Lock() {
 		panic("zsimrt: released into a held mutex")
 	}
 	m.held = true
+	m.owner = g
+	g.addW(m)
 	r.mu.Unlock()
 }
 
@@ -464,12 +677,18 @@ func (m *Mutex) TryLock() bool {
 		return m.real.TryLock()
 	}
 	Yield("trylock")
+	g := r.self()
 	r.mu.Lock()
 	defer r.mu.Unlock()
+	m.sync(r)
 	if m.held {
 		return false
 	}
 	m.held = true
+	if g != nil {
+		m.owner = g
+		g.addW(m)
+	}
 	return true
 }
 
@@ -480,6 +699,7 @@ func (m *Mutex) Unlock() {
 		return
 	}
 	r.mu.Lock()
+	m.sync(r)
 	if !m.held {
 		ab := r.aborting
 		r.mu.Unlock()
@@ -489,6 +709,10 @@ func (m *Mutex) Unlock() {
 		panic("sync: unlock of unlocked mutex")
 	}
 	m.held = false
+	if m.owner != nil {
+		delete(m.owner.heldW, m)
+		m.owner = nil
+	}
 	r.mu.Unlock()
 }
 
@@ -497,9 +721,11 @@ func (m *Mutex) Held() bool { return m.held }
 
 // RWMutex is a cooperative replacement for sync.RWMutex.
 type RWMutex struct {
-	w    bool
-	r    int
-	real sync.RWMutex
+	w      bool
+	r      int
+	ep     uint64
+	wOwner *G
+	real   sync.RWMutex
 }
 
 func (m *RWMutex) lock(write bool) {
@@ -512,6 +738,7 @@ func (m *RWMutex) lock(write bool) {
 		}
 		return
 	}
+	m.sync(r)
 	g := r.self()
 	if g == nil {
 		r.mu.Lock()
@@ -538,8 +765,11 @@ func (m *RWMutex) lock(write bool) {
 	r.mu.Lock()
 	if write {
 		m.w = true
+		m.wOwner = g
+		g.addW(m)
 	} else {
 		m.r++
+		g.addR(m)
 	}
 	r.mu.Unlock()
 }
@@ -580,6 +810,10 @@ func (m *RWMutex) Unlock() {
 	}
 	r.mu.Lock()
 	m.w = false
+	if m.wOwner != nil {
+		delete(m.wOwner.heldW, m)
+		m.wOwner = nil
+	}
 	r.mu.Unlock()
 }
 func (m *RWMutex) RUnlock() {
@@ -588,9 +822,13 @@ func (m *RWMutex) RUnlock() {
 		m.real.RUnlock()
 		return
 	}
+	g := r.self()
 	r.mu.Lock()
 	if m.r > 0 {
 		m.r--
+	}
+	if g != nil {
+		g.delR(m)
 	}
 	r.mu.Unlock()
 }
